@@ -39,6 +39,8 @@ POSITIONS = {
     "check_and": ("CREATE TABLE t (c0 int, c1 varchar(10) CHECK (c1 <> {L} AND c0 > 0), c2 int);", {}),
     "check_table": ("CREATE TABLE t (c0 int, c1 varchar(10), c2 int, CHECK (c1 <> {L}));", {}),
     # literals inside ALTER statements, and literals followed later in the script by a comment line holding a lone apostrophe
+    "default_cast2": ("CREATE TABLE t (c0 int, c1 varchar(10) DEFAULT {L}::character varying, c2 int);", {}),
+    "default_cast1": ("CREATE TABLE t (c0 int, c1 varchar(10) DEFAULT {L}::text NOT NULL, c2 int);", {}),
     "alter_check": ("CREATE TABLE t (c0 int, c1 varchar(10), c2 int);\nALTER TABLE t ADD CONSTRAINT ck CHECK (c1 <> {L});", {}),
     "alter_default": ("CREATE TABLE t (c0 int, c1 varchar(10), c2 int);\nALTER TABLE t ADD CONSTRAINT d1 DEFAULT {L} FOR c1;", {}),
     "default_apos": ("CREATE TABLE t (c0 int, c1 varchar(10) DEFAULT {L}, c2 int);\n-- the next table isn't used yet\nCREATE TABLE zz (q int);", {}),
